@@ -18,6 +18,7 @@ import (
 type refEnv struct {
 	vars map[string]*types.Type
 	funs []*types.Type // registered function types, in registration order
+	user []*types.Type // function types of the caller's own (inner) environment
 }
 
 type refReject struct{ why string }
@@ -161,32 +162,44 @@ func (r *refEnv) check(e ast.Expr) *types.Type {
 			args[i] = r.check(a)
 		}
 		if id, ok := x.Callee.(*ast.IdentExpr); ok {
-			// exactly matching monomorphic overload first (last registration wins)
-			var mono *types.Type
-			for _, f := range r.funs {
-				ft := f.Fun()
-				if ft.Name != id.Name || !refVarFree(f) || len(ft.Param) != len(args) {
-					continue
+			// exactly matching monomorphic overload first (the caller's own
+			// environment before the engine's; last registration wins)
+			for _, level := range [][]*types.Type{r.user, r.funs} {
+				var mono *types.Type
+				for _, f := range level {
+					ft := f.Fun()
+					if ft.Name != id.Name || !refVarFree(f) || len(ft.Param) != len(args) {
+						continue
+					}
+					same := true
+					for i := range args {
+						same = same && RefTypeEq(ft.Param[i], args[i])
+					}
+					if same {
+						mono = ft.Return
+					}
 				}
-				same := true
-				for i := range args {
-					same = same && RefTypeEq(ft.Param[i], args[i])
-				}
-				if same {
-					mono = ft.Return
+				if mono != nil {
+					return mono
 				}
 			}
-			if mono != nil {
-				return mono
-			}
-			// otherwise the first registered polymorphic overload that instantiates
-			for _, f := range r.funs {
-				ft := f.Fun()
-				if ft.Name != id.Name || refVarFree(f) {
-					continue
+			// otherwise the first registered polymorphic overload that
+			// instantiates, among those of the innermost environment that
+			// has any for this name and number of arguments
+			for _, level := range [][]*types.Type{r.user, r.funs} {
+				any := false
+				for _, f := range level {
+					ft := f.Fun()
+					if ft.Name != id.Name || refVarFree(f) || len(ft.Param) != len(args) {
+						continue
+					}
+					any = true
+					if ret := r.instantiate(ft, args); ret != nil {
+						return ret
+					}
 				}
-				if ret := r.instantiate(ft, args); ret != nil {
-					return ret
+				if any {
+					break
 				}
 			}
 			rej("no overload")
@@ -239,6 +252,8 @@ var c05Progs = []string{
 	"[[], [x]]", "[[x], []]", "if(c, [x], [])", "if(c, [], [x])", "[[:], [k: x]]", "get(xs, i, []) == []", "if(c, [[], [o]][1][0], x)",
 	// a polymorphic overload with a concrete container parameter next to a variable: an empty literal is not a list[num]
 	"t2([], x)", "t2([[]][0], x)", "t2(xs, x)", "t2([1], x)", "t2([x], y)", "t3([:], x)", "t3([\"k\": 1], x)",
+	// a type variable that occurs only as a map key (t4), or only in the result (t5)
+	"t4([\"k\": 1])", "t4([1: 1])", "t4(m)", "t4([k: x])", "t5(1)", "t5(i)[k]",
 	"type", "let + 1", "[x][0].a", "{f: x}.f", "{f: x}.g", "get(mo, k, o)", "get(o, o)", "o + 1", "o.a", "o[0]", "len(o)", "o == o",
 }
 
@@ -268,8 +283,12 @@ func H05_step() {
 		types.Fun("h", []*types.Type{types.List(vb)}, vb),
 		types.Fun("h", []*types.Type{vb}, types.Bool),
 	}
-	order := sv.Choice("registration-order", 4)
-	perm := [][]int{{0, 1, 2, 3}, {1, 0, 3, 2}, {3, 2, 1, 0}, {2, 3, 0, 1}}[order]
+	// orders 4 and 5 split the extras between the engine's environment and
+	// the caller's own: 4 keeps the monomorphic g in the engine and puts the
+	// generic ones in front of it, 5 the other way round
+	order := sv.Choice("registration-order", 6)
+	perm := [][]int{{0, 1, 2, 3}, {1, 0, 3, 2}, {3, 2, 1, 0}, {2, 3, 0, 1}, {0, 1, 2, 3}, {0, 1, 2, 3}}[order]
+	inUser := func(k int) bool { return (order == 4 && k != 0) || (order == 5 && k == 0) }
 
 	e := NewBareEngine()
 	r := &refEnv{vars: map[string]*types.Type{}}
@@ -280,6 +299,11 @@ func H05_step() {
 	}
 	for _, k := range perm {
 		ft := extras[k]
+		if inUser(k) {
+			e.UserFuns = append(e.UserFuns, ft)
+			r.user = append(r.user, ft)
+			continue
+		}
 		e.Register(val.Fun(ft, func(args ...*val.Val) *val.Val { return args[0] }))
 		r.funs = append(r.funs, ft)
 	}
@@ -287,8 +311,10 @@ func H05_step() {
 	for _, ft := range []*types.Type{
 		types.Fun("t2", []*types.Type{types.List(types.Num), vc}, vc),
 		types.Fun("t3", []*types.Type{types.Map(types.Str, types.Num), vc}, vc),
+		types.Fun("t4", []*types.Type{types.Map(vc, types.Num)}, types.Num),
+		types.Fun("t5", []*types.Type{types.Num}, types.Map(vc, types.Num)),
 	} {
-		e.Register(val.Fun(ft, func(args ...*val.Val) *val.Val { return args[1] }))
+		e.Register(val.Fun(ft, func(args ...*val.Val) *val.Val { return args[len(args)-1] }))
 		r.funs = append(r.funs, ft)
 	}
 	fobj := types.Fun("f", []*types.Type{tx}, tx)
